@@ -39,6 +39,10 @@ Definition nd0 : node_ := {| nd_font_size := Fin 12 |}.
 Definition CL (aid : aid_) (n : xq) (u : unit_) : xq :=
   convert_length (fun _ => Fin 100) {| len_number := n; len_unit := u |} nd0 aid UserSpaceOnUse st0.
 
+(* the same with the element's resolved font size given (font-relative units) *)
+Definition CLf (fs : xq) (aid : aid_) (n : xq) (u : unit_) : xq :=
+  convert_length (fun _ => Fin 100) {| len_number := n; len_unit := u |} {| nd_font_size := fs |} aid UserSpaceOnUse st0.
+
 Definition tolr : Q := 1 # 200000.       (* relative 5e-6: a handful of f32 roundings *)
 
 (* ---- stroke ---- *)
